@@ -380,6 +380,9 @@ def run(ctx):
     if not okf:
         res.add(Finding('C12', 'C12.f', 'R-ORDER', close.file, close.qualname, close.node.lineno, 'close order %s' % ln,
                         'close() must set the stop signal, then join the flusher, then close the wrapped cassette'))
+    # ---- C12.g every write to a recording of the asynchronous cassette reaches its producer hooks (template methods of the hierarchy)
+    from . import common as _cm12
+    _cm12.template_hooks_clause(ctx, res, 'C12', 'C12.g', 'Recording', floor=2)
     return res
 
 
